@@ -211,7 +211,7 @@ def text_read(fmt, endian, f):
 def arc_write(files, rng, padded=True, permute_bodies=True, unaligned=False, gaps=False, count_first=True,
               extra_labels=True, shuffle_tables=False, drop=None, bad_name=None, bad_range=None, count_delta=0,
               junk_text=False, raw_offset=None, dup_strings=False, tail=0.0, end_exact=False, share=False, empty_last=False,
-              indices="seq"):
+              indices="seq", decoys=None):
     """files: [(name bytes, body bytes)] in RECORD order.  Returns (image, expected) with expected = 'ok' or the
     name of the error the property demands.  Knobs: header padding, body placement (order, alignment, gaps),
     Count before/after Info, extra labels; error variants: drop = 'count' | 'info' (label missing),
@@ -221,7 +221,10 @@ def arc_write(files, rng, padded=True, permute_bodies=True, unaligned=False, gap
     ends exactly at the end of the data region (address + size = size of the data: the boundary of "inside"),
     share = a body whose bytes already occur among the bodies written so far may reuse that range (shared / overlapping
     ranges), empty_last = among the bodies placed after the tables the empty ones come last (so that an empty file's start
-    address equals the size of the data region when end_exact is set).  indices = what the records' index field holds:
+    address equals the size of the data region when end_exact is set).  decoys = 'count' | 'info' | 'both': the label also
+    sits on HIGHER addresses (a word holding a wrong count / a place that holds no table): the lowest address carrying the
+    label is the one that counts (find_label_address after the repair 10408e9), so the expectation is unchanged; the
+    decoy entries precede the real ones in the label list half of the time.  indices = what the records' index field holds:
     'seq' (0, 1, 2 ...), 'zero' (all 0), 'dup' (some values repeated), 'random' (arbitrary 32-bit values) - the property
     keys entries by NAME; the index field carries no meaning for extraction (seeded change C16-3 collected records in a map
     keyed by it and lost records sharing a value).  The knobs draw random numbers only when switched on."""
@@ -311,6 +314,19 @@ def arc_write(files, rng, padded=True, permute_bodies=True, unaligned=False, gap
             d[patch[i]:patch[i] + 4] = struct.pack("<I", offs[i] & 0xFFFFFFFF)
         d += files[i][1]
     d += bytes(align4(len(d)) - len(d))
+    if decoys:
+        d += bytes(align4(len(d)) - len(d))
+        extra = []
+        if decoys in ("count", "both"):
+            for _ in range(rng.randint(1, 2)):
+                extra.append((len(d), b"Count"))
+                d.extend(struct.pack("<I", rng.choice([0, len(files) + 1, len(files) + 7, 0xFFFFFFFF, 0x10000])))
+        if decoys in ("info", "both"):
+            for _ in range(rng.randint(1, 2)):
+                extra.append((len(d), b"Info"))
+                d.extend(bytes(rng.randint(0, 255) for _ in range(rng.choice([0, 4, 16]))))
+            d += bytes(align4(len(d)) - len(d))
+        labels = (extra + labels) if rng.random() < 0.5 else (labels + extra)
     if extra_labels:
         labels.append((base, b"Data"))
     expected = "ok"
